@@ -343,7 +343,20 @@ func runFaults(r *core.Run, in faultIn) (*faultOut, error) {
 				return nil, err
 			}
 			fst.armed.Store(false)
-			res := api.Build(faultOpts(dir, g, cs.Hashed, cs.Smap))
+			// the fault-free build of the graph is real-code behaviour too: it must return
+			cdone := make(chan api.BuildResult, 1)
+			go func() { cdone <- api.Build(faultOpts(dir, g, cs.Hashed, cs.Smap)) }()
+			var res api.BuildResult
+			select {
+			case res = <-cdone:
+			case <-time.After(90 * time.Second):
+				oc := fOutcome{Case: cs, Problem: "hang"}
+				oc.Case.Fault = fMsg{Kind: "none", At: "-"}
+				oc.Detail = fmt.Sprintf("the fault-free build of graph %s (source map mode %q) did not return within 90 s; goroutines: %s", g.Name, cs.Smap, strings.Join(pipelineGoroutines(), " || "))
+				out.Outcomes = append(out.Outcomes, oc)
+				out.Hung = ci
+				return out, nil
+			}
 			if len(res.Errors) > 0 {
 				return nil, fmt.Errorf("canonical build of %s fails: %s", g.Name, res.Errors[0].Text)
 			}
